@@ -41,10 +41,17 @@ class TState:
 class Scheduler:
     WATCHDOG = 20.0
 
-    def __init__(self, budget=2000, trace_files=None):
+    def __init__(self, budget=2000, trace_files=None, opcode_files=None):
         # trace_files: source files in which EVERY line is a yield point
         # (statement-granularity scheduling via sys.settrace)
-        self.trace_files = set(trace_files or ())
+        # opcode_files: source files in which every BYTECODE is a yield point (a thread switch can
+        # fall inside one statement: between two reads of the same global in one expression)
+        self.opcode_files = set(opcode_files or ())
+        self.trace_files = set(trace_files or ()) | self.opcode_files
+        if self.opcode_files:
+            # CPython 3.12 switches per-instruction events on (interpreter-wide) at the next
+            # sys.settrace() after SOME frame asked for them: ask once, here
+            sys._getframe().f_trace_opcodes = True
         self.ts = {}
         self.by_ident = {}
         self.main = _threading.Semaphore(0)
@@ -100,11 +107,15 @@ class Scheduler:
 
     def _global_trace(self, frame, event, arg):
         if frame.f_code.co_filename in self.trace_files:
+            if frame.f_code.co_filename in self.opcode_files:
+                frame.f_trace_opcodes = True
             return self._local_trace
         return None
 
     def _local_trace(self, frame, event, arg):
-        if event == 'line':
+        if event == 'line' and not frame.f_trace_opcodes:
+            self.announce('line', None)
+        elif event == 'opcode':
             self.announce('line', None)
         return self._local_trace
 
